@@ -243,6 +243,8 @@ func (l *memoryBlockList) Allocate(size int, alignment uint, createInfo *Allocat
 				if freeErr != nil {
 					panic(fmt.Sprintf("unexpected error when freeing an allocation that was created as part of a failed allocation: %+v", err))
 				}
+				// The caller gets the allocation back unallocated and reusable
+				allocations[allocIndex].memory = nil
 			}
 		}
 	}()
